@@ -237,3 +237,25 @@ Definition with_args (args_ok : bool) (v : bool * bool * N) : bool * bool * N :=
 (* rules that do not compile: nothing is scanned, nothing on stdout, exit status 1 *)
 Definition C18_compile_fail_case (out : list bytes) (exit : N) : bool * bool * N :=
   let ok := match out with [] => true | _ => false end && (exit =? 1) in (ok, ok, 0).
+
+(* ------------------------------------------------------------------ other entry points
+   `yr` argument errors, `yr -M` / `list-modules` against Compiler::available_modules, `save` onto an
+   existing file. *)
+Fixpoint sorted_bytes (l : list bytes) : bool :=
+  match l with
+  | x :: ((y :: _) as rest) => bytes_leb x y && sorted_bytes rest
+  | _ => true
+  end.
+
+Definition C18_yr_case (module_names load : bool) (positional available out : list bytes) (exit : N) : bool * bool * N :=
+  match from_yr_args module_names load positional with
+  | YrError =>
+      let ok := match out with [] => true | _ => false end && (exit =? 1) in (ok, ok, 0)
+  | YrListModules =>
+      (list_eqb bytes_eqb out (list_modules available) && (exit =? 0),
+       sorted_bytes out && mset_eqb bytes_eqb out available && (exit =? 0), 0)
+  | _ => (false, false, 0)       (* the generator only sends the two kinds above here *)
+  end.
+
+Definition C18_save_case (first second : N) (unchanged : bool) : bool * bool * N :=
+  let ok := (first =? save_exit false) && (second =? save_exit true) && unchanged in (ok, ok, 0).
